@@ -6,6 +6,9 @@ mod trace;
 #[cfg(test)]
 mod tests;
 
+#[cfg(feature = "verif")]
+pub mod verif;
+
 pub(crate) trait GcTrace {
     fn trace<'a>(&self, ctx: &mut impl GcTraceCtx<'a>)
     where
